@@ -65,6 +65,8 @@ impl crate::graph::GraphRunner for MTGraph {
     }
 
     fn run(&mut self) -> Result<()> {
+        #[cfg(feature = "verif")]
+        use crate::vsync::stdshim as std;
         let st = Instant::now();
         let run_start_cpu = get_cpu_time();
         let mut threads = Vec::new();
